@@ -287,7 +287,12 @@ static void do_clear(void)
     Slot *s = slots[o];
     jbegin("ard_clear"); echo_common(); jstr("fam", fam);
     long nz = 0;
-    if (!strcmp(fam, "mk")) {
+    if (!strcmp(fam, "ctr")) {
+        /* CTR<T>::clear(): the object stays what it is; key, counter and buffered key stream are gone */
+        CTRCommon *c = ctrsel(s);
+        c->clear();
+        for (int i = 0; i < 16; i++) nz += (c->counter[i] != 0) + (c->state[i] != 0);
+    } else if (!strcmp(fam, "mk")) {
         s->m8.clear();
         for (size_t i = 0; i < sizeof(s->m8.st); i++) nz += ((const uint8_t *)&s->m8.st)[i] != 0;
     } else {
